@@ -181,6 +181,9 @@ pub fn run(rep: &'static Report) {
 
 /// CLI level: `kestrel password encrypt|decrypt --env-pass` over all ordered pairs of a UTF-8 password alphabet
 /// (what the tool does to the password string before the KDF is part of the property).
+const LONG_A: &str = concat!("yyyyyyyyyyyyyyyyyyyyyyyyyyyyyyyyyyyyyyyyyyyyyyyyyyyyyyyyyyyyyyyyyyyyyyyyyyyyyyyyyyyyyyyyyyyyyyyyyyyyyyyyyyyyyyyyyyyyyyyyyyyyyyyyyyyyyyyyyyyyyyyyyyyyyyyyyyyyyyyyyyyyyyyyyyyyyyyyyyyyyyyyyyyyyyyyyyyyyyyyyyyyyyyyyyyyyyyyyyyyyyyyyyyyyyyyyyyyyyyyyyyyyyyyyyyyyyyyyyyyyyyyyyyyyyyyyyyyyyyyyyyyyyyyyyyyyyyyyyyyyyyyyyyyyyyyyyyyyyyyyyyyyyyyyyyyyyyyyyyyyyyyyyyyyyyyyyyyyyyyyyyyyyyyyyyyyyyyyyyyyyyyyyyyyyyyyyyyyyyyyyyyyyyyyyyyyyyyyyyyyyyyyyyyyyyyyyyyyyyyyyyyyyyyyyyyyyyyyyyyyyyyyyyyyyyyyyyyyyyyyyyyyyyyyyyyyyyyyyyyyyyyyyyyyyyyyyyyyyyyyyyyyyyyyyyyyyyyyyyyyyyyyyyyyyyyyyyyyyyyyyyyyyyyyyyyyyyyyyyyyyyyyyyyyyyyyyyyyyyyyyyyyyyyyyyyyyyyyyyyyyyyyyyyyyyyyyyyyyyyyyyyyyyyyyyyyyyyyyyyyyyyyyyyyyyyyyyyyyyyyyyyyyyyyyyyyyyyyyyyyyyyyyyyyyyyyyyyyyyyyyyyyyyyyyyyyyyyyyyyyyyyyyyyyyyyyyyyyyyyyyyyyyyyyyyyyyyyyyyyyyyyyyyyyyyyyyyyyyyyyyyyyyyyyyyyyyyyyyyyyyyyyyyyyyyyyyyyyyyyyyyyyyyyyyyyyyyyyyyyyyyyyyyyyyyyyyyyyyyyyyyyyyyyyyyyyyyyyyyyyyyyyyyyyyyyyyyyyyyyyyyyyyyyyyyyyyyyyyyyyyyyyyyyyyyyyyyyyyyyyyyyyyyyyyyyyyyyyyyyyyyyyyyyyyyyyyyyyyyyyyyyyyyyyyyyyyyyyyyyyyyyyyyyyyyyyyyyyyyyyyyyyyyyyyyyyyyyyyyyyyyyyyyyyyyyyyyyyyyyyyyyyyyyyyyyyyyyyyyyyyyyyyyyyyyyyyyyyyyyyyyyyyyyyyyyyyyyyyyyyyyy", "a");
+const LONG_B: &str = concat!("yyyyyyyyyyyyyyyyyyyyyyyyyyyyyyyyyyyyyyyyyyyyyyyyyyyyyyyyyyyyyyyyyyyyyyyyyyyyyyyyyyyyyyyyyyyyyyyyyyyyyyyyyyyyyyyyyyyyyyyyyyyyyyyyyyyyyyyyyyyyyyyyyyyyyyyyyyyyyyyyyyyyyyyyyyyyyyyyyyyyyyyyyyyyyyyyyyyyyyyyyyyyyyyyyyyyyyyyyyyyyyyyyyyyyyyyyyyyyyyyyyyyyyyyyyyyyyyyyyyyyyyyyyyyyyyyyyyyyyyyyyyyyyyyyyyyyyyyyyyyyyyyyyyyyyyyyyyyyyyyyyyyyyyyyyyyyyyyyyyyyyyyyyyyyyyyyyyyyyyyyyyyyyyyyyyyyyyyyyyyyyyyyyyyyyyyyyyyyyyyyyyyyyyyyyyyyyyyyyyyyyyyyyyyyyyyyyyyyyyyyyyyyyyyyyyyyyyyyyyyyyyyyyyyyyyyyyyyyyyyyyyyyyyyyyyyyyyyyyyyyyyyyyyyyyyyyyyyyyyyyyyyyyyyyyyyyyyyyyyyyyyyyyyyyyyyyyyyyyyyyyyyyyyyyyyyyyyyyyyyyyyyyyyyyyyyyyyyyyyyyyyyyyyyyyyyyyyyyyyyyyyyyyyyyyyyyyyyyyyyyyyyyyyyyyyyyyyyyyyyyyyyyyyyyyyyyyyyyyyyyyyyyyyyyyyyyyyyyyyyyyyyyyyyyyyyyyyyyyyyyyyyyyyyyyyyyyyyyyyyyyyyyyyyyyyyyyyyyyyyyyyyyyyyyyyyyyyyyyyyyyyyyyyyyyyyyyyyyyyyyyyyyyyyyyyyyyyyyyyyyyyyyyyyyyyyyyyyyyyyyyyyyyyyyyyyyyyyyyyyyyyyyyyyyyyyyyyyyyyyyyyyyyyyyyyyyyyyyyyyyyyyyyyyyyyyyyyyyyyyyyyyyyyyyyyyyyyyyyyyyyyyyyyyyyyyyyyyyyyyyyyyyyyyyyyyyyyyyyyyyyyyyyyyyyyyyyyyyyyyyyyyyyyyyyyyyyyyyyyyyyyyyyyyyyyyyyyyyyyyyyyyyyyyyyyyyyyyyyyyyyyyyyyyyyyyyyyyyyyyyyyyyyyyyyyyyyyyyyyyyyyyyyyyyyyyyyyyyyyyyyyyyyyyyyyyyyyyyyyyyyyyyyyyyyyyyyyyyyyyyyyy", "b");
+
 pub fn cli_passwords() -> Vec<(&'static str, &'static str)> {
     vec![
         ("empty", ""),
@@ -195,6 +198,8 @@ pub fn cli_passwords() -> Vec<(&'static str, &'static str)> {
         ("e-nfc", "\u{e9}"),
         ("e-nfd", "e\u{301}"),
         ("a-nbsp", "a\u{a0}"),
+        ("long1300-a", LONG_A),
+        ("long1300-b", LONG_B),
     ]
 }
 
@@ -260,10 +265,56 @@ fn cli_pairs(rep: &Report) {
         }
     });
     rep.extra("cli_password_pairs", json!(jobs.len()));
+    // CLI round trip: `password encrypt -o F` / `password decrypt -o G` where F and G are fresh or already hold longer files
+    let mut rjobs = vec![];
+    for l in [0usize, 40, 70000] {
+        for pre in [false, true] {
+            for (pi, _) in w.iter().enumerate().take(4) {
+                rjobs.push((l, pre, pi));
+            }
+        }
+    }
+    rjobs.par_iter().for_each(|&(l, pre, pi)| {
+        rep.eval(1);
+        rep.nontrivial(format!("cli-rt-{}-{}-{}", l, pre, pi).as_bytes());
+        let p = plaintext(rep.seed ^ 0x25, l);
+        let attempt = || -> Result<(), String> {
+            let sc = Scratch::new();
+            sc.write("plain.bin", &p);
+            if pre {
+                sc.write("ct.ktl", &vec![b'Z'; 200_000]);
+                sc.write("back.bin", &vec![b'Z'; 200_000]);
+            }
+            let o = proc::run(&Cmd::new(&["password", "encrypt", "plain.bin", "-o", "ct.ktl", "--env-pass"]).env("KESTREL_PASSWORD", w[pi].1), &sc.0);
+            o.well_behaved()?;
+            if !o.ok() {
+                return Err(format!("password encrypt failed: {}", o.summary()));
+            }
+            let o = proc::run(&Cmd::new(&["password", "decrypt", "ct.ktl", "-o", "back.bin", "--env-pass"]).env("KESTREL_PASSWORD", w[pi].1), &sc.0);
+            o.well_behaved()?;
+            if !o.ok() {
+                return Err(format!("password decrypt of the file just written{} failed under the same password: {}", if pre { " (output paths held longer files before)" } else { "" }, o.summary()));
+            }
+            if sc.read("back.bin").as_deref() != Some(&p[..]) {
+                return Err(format!("CLI password round trip of {} bytes{} does not return the original bytes", l, if pre { " into pre-existing longer files" } else { "" }));
+            }
+            Ok(())
+        };
+        if attempt().is_err() {
+            if let Err(e) = attempt() {
+                rep.violation(if pre { "cli/roundtrip-preexisting-output" } else { "cli/roundtrip" }, json!({"kind":"cli-rt","l":l,"pre":pre,"pw":w[pi].1}), e);
+            }
+        }
+    });
     rep.sample(json!({"kind":"cli-pair","encrypt":"KESTREL_PASSWORD='a\\n'","decrypt":"KESTREL_PASSWORD='a'","expect":"exit 1, no output file"}));
 }
 
 pub fn replay(rep: &'static Report, case: &Value) {
+    if case["kind"] == "cli-rt" {
+        println!("  re-running the CLI part of C02");
+        cli_pairs(rep);
+        return;
+    }
     if case["kind"] == "cli-pair" {
         let g = |k: &str| case[k].as_str().unwrap().to_string();
         if let Err(e) = cli_pair(rep, &g("wn"), &g("w"), &g("w2n"), &g("w2"), &unhx(&g("plain")), &unhx(&g("file"))) {
